@@ -43,7 +43,7 @@ type c09Node struct {
 	confNonce  uint64
 	pending    uint64
 	receipts   map[common.Hash]uint64 // hash -> status
-	errMode    map[common.Hash]int    // 1: batch element fails, 2: individual query fails too, 3: no response for the batch element
+	errMode    map[common.Hash]int    // 1: batch element fails, 2: individual query fails too, 3: no response for the batch element, 4: response without result
 	fail       map[string]bool        // kind -> whole call fails; "send" -> SendTransaction fails
 	hold       map[string]bool        // kind -> park the call until released (blocknum: always)
 	parked     []*c09Parked
@@ -178,7 +178,7 @@ func (n *c09Node) ansNonceAt(ctx context.Context) (uint64, error) {
 // truth about one hash: 0 = receipt (status), 1 = no receipt, 2 = failing
 func (n *c09Node) truthLocked(h common.Hash, individual bool) (int, uint64) {
 	m := n.errMode[h]
-	if m == 2 || ((m == 1 || m == 3) && !individual) {
+	if m == 2 || ((m == 1 || m == 3 || m == 4) && !individual) {
 		return 2, 0
 	}
 	if st, ok := n.receipts[h]; ok {
@@ -475,19 +475,24 @@ func (n *c09Node) ServeHTTP(w http.ResponseWriter, r *http.Request) {
 		n.mu.Lock()
 		n.batchTruth = map[common.Hash]c09Elem{}
 		n.mu.Unlock()
-		out := make([]c09Resp, 0, len(rqs))
+		out := make([]interface{}, 0, len(rqs))
 		for _, rq := range rqs {
 			if rq.Method == "eth_getTransactionReceipt" && len(rq.Params) > 0 {
 				var h common.Hash
 				if json.Unmarshal(rq.Params[0], &h) == nil {
 					n.mu.Lock()
-					omit := n.errMode[h] == 3
-					if omit {
+					em := n.errMode[h]
+					if em == 3 || em == 4 {
 						n.batchTruth[h] = c09Elem{h: h, kind: 3}
 					}
 					n.mu.Unlock()
-					if omit {
-						continue // the response batch has no answer to this call
+					if em == 3 {
+						continue // the response batch has no answer to this call (rpc.ErrMissingBatchResponse)
+					}
+					if em == 4 {
+						// a response with neither result nor error (rpc.ErrNoResult)
+						out = append(out, map[string]interface{}{"jsonrpc": "2.0", "id": rq.ID})
+						continue
 					}
 				}
 			}
@@ -545,6 +550,13 @@ type c09Rec struct {
 	pendBlk *uint64
 	drvLast uint64
 	pendEl  []c09Elem
+	// bookkeeping for wait-until synchronisation (never part of a case):
+	stopped    func() bool          // the watch loop has returned: nothing is delivered any more
+	resolved   map[common.Hash]bool // hashes whose element was handed over with a definite answer
+	batchBegun int                  // receipt batches started so far
+	nonceOK    bool                 // the last NonceAt call succeeded ...
+	nonceVal   uint64               // ... with this value
+	batchEnd   time.Time            // when the last batch returned
 }
 
 func (r *c09Rec) begin(chk bool) {
@@ -580,6 +592,11 @@ func c09Reply(e c09Elem) string {
 func (r *c09Rec) procLocked(fb string) {
 	e := r.pendEl[0]
 	r.pendEl = r.pendEl[1:]
+	if e.kind <= 1 || strings.HasPrefix(fb, "(Some (RReceipt") || fb == "(Some RNotFound)" {
+		if r.stopped == nil || !r.stopped() {
+			r.resolved[e.h] = true // the client's own waiter of e.h will update the pending list
+		}
+	}
 	r.logf("(ObsProc " + coqN(r.hid(e.h)) + " " + c09Reply(e) + ")")
 	r.logf("(Ev (Proc " + fb + "))")
 }
@@ -599,6 +616,14 @@ func (r *c09Rec) procLeadingLocked() {
 	}
 }
 
+// Unprocessed reports elements of an answered batch that were not yet seen to be handed over, whether
+// check() is inside a node call, and when the batch returned.
+func (r *c09Rec) Unprocessed() (int, bool, time.Time) {
+	r.mu.Lock()
+	defer r.mu.Unlock()
+	return len(r.pendEl), r.actChk > 0, r.batchEnd
+}
+
 // Flush is called by the driver at quiescence: elements the monitor skipped without asking.
 func (r *c09Rec) Flush() {
 	r.mu.Lock()
@@ -613,10 +638,14 @@ func (r *c09Rec) Flush() {
 func (r *c09Rec) Batcher() Batcher { return r }
 func (r *c09Rec) BatchCallContext(ctx context.Context, b []rpc.BatchElem) error {
 	r.begin(true)
+	r.mu.Lock()
+	r.batchBegun++
+	r.mu.Unlock()
 	err := r.inner.Batcher().BatchCallContext(ctx, b)
 	r.mu.Lock()
 	defer r.mu.Unlock()
 	r.end(true)
+	r.batchEnd = time.Now()
 	// anything left over from an earlier batch was skipped by the monitor
 	for len(r.pendEl) > 0 {
 		r.procLocked("None")
@@ -716,6 +745,7 @@ func (r *c09Rec) NonceAt(ctx context.Context, a common.Address, blk *big.Int) (u
 	r.end(false)
 	b := blk.Uint64()
 	r.pendBlk = nil
+	r.nonceOK, r.nonceVal = err == nil, v
 	if err != nil {
 		r.logf(fmt.Sprintf("(Ev (Poll (Some %s) None %s))", coqN(b), coqBool(b <= r.drvLast)))
 		return v, err
